@@ -189,3 +189,21 @@ cg_method("stop_consumers", "(%s) -> None" % SELF,
               # C16, eviction: EVERY partition consumer that is still running is stopped - one whose start() Deferred has
               # already reported an error keeps fetching and committing until stop() is called on it
               "every-running-consumer-is-stopped[C16]": "n_events('StopConsumer') == ite(old_running, 1, 0)"}})
+
+
+# ---- small callbacks of the coordinator (entry points Twisted invokes) ------------------------------------------------
+method("_handle_heartbeat_failure", "(%s, failure: Ref_Failure) -> Any" % SELF, props=["C16", "C17"],
+       requires=["running(self._heartbeat_looper)"],
+       # C17: a failed heartbeat is classified like every other error (rejoin or stop); stopping the heartbeat timer is an
+       # excursion (its Deferred's callbacks run), so no two-state claim is made about the timer afterwards
+       ensures={"classified-like-any-error[C17]": "n_calls('rejoin_after_error') == 1"})
+
+method("_heartbeat_timer_failed", "(%s, failure: Ref_Failure) -> Any" % SELF, props=["C17"])
+
+method("_heartbeat_timer_stopped", "(%s, result: Any) -> Any" % SELF, props=["C17"],
+       ensures={"cleared[C17]": "self._heartbeat_looper_d is None"})
+
+method("start", "(%s) -> Optional[Ref_Deferred]" % SELF, props=["C17"],
+       raises={"RestartError[C17]": "iff:self._start_d is not None"},
+       # C17: a started member is joining at once
+       checkpoints={"call:join_and_sync#1": {"fresh-start[C17]": "self._start_d is not None and not called(self._start_d)"}})
